@@ -579,6 +579,11 @@ func genC10(t *rapid.T) *c10Case {
 	default:
 		c.Target = "universe"
 		c.U = ugen.Gen(t)
+		if n(5, "mixeddrafts") == 0 {
+			// documents of different drafts referring to each other (and to a $schema-less one)
+			c.U = genMixedUniverse(t)
+			c.U.Routes = []ugen.Route{{Path: []string{"p0"}, Intended: "x"}, {Path: []string{"p1", "x"}, Intended: "1"}, {Path: []string{"p2"}, Intended: "y"}}
+		}
 		c.BaseURI = c.U.BaseURI
 		if n(6, "oddbase") == 0 {
 			c.BaseURI = rapid.SampledFrom([]string{"", "http://b.test/x.json#f", "rel.json", "::"}).Draw(t, "ubase")
